@@ -70,3 +70,25 @@ Lemma registered_key_run :
   g_map (st_g (p_st (fst (zrun renv_squat [squatter2; honest2; honest3])))) = [(2, 420); (3, 98)] /\
   zveq rq 420 (11 * zH rhs 0) = false.
 Proof. vm_compute. repeat split. Qed.
+
+(* From message arrival (Processor level, same group): the honest shares of members 2 and 3 arrive
+   before the cast message and are kept in the future-message cache.  (a) undisturbed, the accepted
+   cast message hands them over and the block finalises; (b) if the cache drops the block's entry in
+   between (it is an LRU over 50 block hashes and stores unauthenticated messages under whatever hash
+   they name: 50 junk verify messages do it; confirmed on the node, known finding
+   C15/future-store:evicted-by-flood), the party is created with nothing to hand over and stays in
+   the collecting phase with an empty recovery set although a threshold of valid shares had arrived;
+   (c) the 10 s timer ends a party that is still collecting. *)
+Definition zproc (evs : list (@event Z nat)) :=
+  proc_run (zq rq) Z.eqb (zveq rq) (Z.eqb 0) (zvz rq) Nat.eqb (zH rhs) zsel (fun l => l) true renv evs.
+
+Definition phase_of (p : @proc Z nat) : option phase := option_map (@p_phase Z) (pr_party p).
+Definition count_of (p : @proc Z nat) : option nat :=
+  option_map (fun ps => length (g_map (st_g (p_st ps)))) (pr_party p).
+
+Lemma store_evicted_run :
+  phase_of (zproc [EvVerify 0%nat honest2; EvVerify 0%nat honest3; EvCast true]) = Some Finished /\
+  phase_of (zproc [EvVerify 0%nat honest2; EvVerify 0%nat honest3; EvEvict; EvCast true]) = Some Collecting /\
+  count_of (zproc [EvVerify 0%nat honest2; EvVerify 0%nat honest3; EvEvict; EvCast true]) = Some 0%nat /\
+  phase_of (zproc [EvCast true; EvVerify 0%nat honest2; EvTimeout; EvVerify 0%nat honest3]) = Some Closed.
+Proof. vm_compute. repeat split. Qed.
